@@ -65,6 +65,17 @@ def explore(ctx, depth):
     rng = ctx.rng
     cases = docrun.make_cases(ctx, 40 if depth == 'quick' else 500)
     extended_signifiers(ctx, depth)
+    # the witness of the repaired defect F22 (free text that mentions an extended header) and some relatives: both chains hold
+    import json as _json
+    from common import VERIF as _V
+    wtexts = [_json.load(open(_V / 'findings' / 'F22-header-rewrite-in-free-text.json'))['input']['text'],
+              '**kern\t**dynam\t**text\n*clefG2\t*\t*\n=1\t=1\t=1\n4c\tp**edynam\t**e\n!see **etext and **edyn\t!**ekern\t!x**eharm y\n8d\tf\tla**eroot\n==\t==\t==\n*-\t*-\t*-\n']
+    for wt in wtexts:
+        r = call(lambda: ext_chain(kp, Encoding, get_kern_from_ekern, wt))
+        ctx.seen({'text': wt, 'clause': 'free text that mentions an extended header'}, True)
+        if r != {'ok': None}:
+            ctx.fail({'text': wt, 'clause': 'free text that mentions an extended header (witness of the repaired defect F22)'},
+                     'import(export) has errors or does not re-export to the same text (plain or extended chain)', impl=r)
     # corpus: all single and ordered-pair placements of the signifiers on one note (one document each batch)
     import itertools
     notes = []
